@@ -16,6 +16,7 @@ mod common;
 mod indep;
 mod rng;
 mod snippet;
+mod wrap;
 
 mod c01;
 mod c02;
